@@ -4,7 +4,7 @@ import ast
 import copy
 import inspect
 import logging
-from dataclasses import dataclass, is_dataclass, make_dataclass
+from dataclasses import dataclass, fields, is_dataclass, make_dataclass
 from keyword import iskeyword
 from typing import (
     Any,
@@ -453,6 +453,22 @@ class _MethodTypeReturnInfo:
 T = TypeVar("T")
 
 
+def _same_type(t1: Any, t2: Any) -> bool:
+    """Are these the same type? Every dictionary literal gets a record type of its own: two of
+    them are the same type when they have the same fields, in the same order, of the same types.
+    """
+    if t1 == t2:
+        return True
+    if not (is_dataclass(t1) and is_dataclass(t2)):
+        return False
+    if not (t1.__name__ == t2.__name__ == "dict_dataclass"):
+        return False
+    f1, f2 = fields(t1), fields(t2)
+    return len(f1) == len(f2) and all(
+        a.name == b.name and _same_type(a.type, b.type) for a, b in zip(f1, f2)
+    )
+
+
 def remap_by_types(
     o_stream: ObjectStream[T], var_type_mapping: Dict[str, Any], a: ast.AST
 ) -> Tuple[ObjectStream[T], ast.AST, Type]:
@@ -866,7 +882,7 @@ def remap_by_types(
             t_false = self.lookup_type(t_node.orelse)
 
             final_type = Any
-            if t_true == t_false:
+            if _same_type(t_true, t_false):
                 final_type = t_true
             elif t_true in [int, float, Any] and t_false in [int, float, Any]:
                 final_type = float
